@@ -219,3 +219,14 @@ Proof.
     + now left.
     + right. fold D in H. now rewrite map_id in H.
 Qed.
+
+(* whatever edges are declared - both directions, repeated, invalid ones mixed in - what _prepare_edges keeps is well formed *)
+Lemma norm_edges_ok nv edges0 : edges0_ok (norm_edges nv edges0).
+Proof.
+  unfold norm_edges. split; [apply dedup_NoDup|].
+  apply Forall_forall. intros E HE. apply dedup_incl in HE. apply filter_In in HE. destruct HE as [_ V].
+  destruct E as [|a [|b [|? ?]]]; try discriminate. cbn [edge_valid] in V.
+  apply andb_true_iff in V. destruct V as [V _]. apply andb_true_iff in V. destruct V as [V _].
+  apply negb_true_iff, Nat.eqb_neq in V. split; [reflexivity|].
+  constructor; [intros [H|[]]; now apply V|constructor; [intros []|constructor]].
+Qed.
